@@ -277,8 +277,28 @@ var perturbations = []perturbation{
 		if rules == nil || rules.K != 'a' || d.Top.Doc.Get("rules") == nil {
 			return nil, false
 		}
-		dead := JObj(KV{"variation", JInt(0)}, KV{"id", JStr("dead")}, KV{"clauses", JArr(JObj(KV{"attribute", JStr("key")}, KV{"op", JStr("in")},
-			KV{"values", JArr()}, KV{"negate", JBool(false)}))}, KV{"trackEvents", JBool(true)})
+		// several ways of never matching; the case's own hash picks one, so the choice replays
+		var cl *J
+		switch len(c.Top.Doc.Text()) % 5 {
+		case 0:
+			cl = JObj(KV{"attribute", JStr("key")}, KV{"op", JStr("in")}, KV{"values", JArr()}, KV{"negate", JBool(false)})
+		case 1:
+			cl = JObj(KV{"attribute", JStr("noSuchAttribute")}, KV{"op", JStr("in")}, KV{"values", JArr(JStr("x"))}, KV{"negate", JBool(true)})
+		case 2:
+			cl = JObj(KV{"contextKind", JStr("nokind")}, KV{"attribute", JStr("key")}, KV{"op", JStr("in")}, KV{"values", JArr(JStr("a"), JStr("b"))}, KV{"negate", JBool(true)})
+		default:
+			// a segment that cannot contain anyone: its only rule is weighted and cannot compute a bucket for this context
+			// (kind absent), or has weight 0 over an attribute nobody has
+			ru := JObj(KV{"id", JStr("w")}, KV{"clauses", JArr()}, KV{"weight", JInt(100000)}, KV{"rolloutContextKind", JStr("nokind")})
+			if len(c.Top.Doc.Text())%5 == 4 {
+				ru = JObj(KV{"id", JStr("w")}, KV{"clauses", JArr()}, KV{"weight", JInt(0)}, KV{"bucketBy", JStr("noSuchAttribute")})
+			}
+			seg := JObj(KV{"key", JStr("zz-dead")}, KV{"included", JArr()}, KV{"excluded", JArr()}, KV{"salt", JStr("deadsalt")},
+				KV{"rules", JArr(ru)}, KV{"version", JInt(1)})
+			d.Segs = append(d.Segs, Item{Key: "zz-dead", Form: 1, Doc: seg})
+			cl = JObj(KV{"attribute", JStr("")}, KV{"op", JStr("segmentMatch")}, KV{"values", JArr(JStr("zz-dead"))}, KV{"negate", JBool(false)})
+		}
+		dead := JObj(KV{"variation", JInt(0)}, KV{"id", JStr("dead")}, KV{"clauses", JArr(cl)}, KV{"trackEvents", JBool(true)})
 		rules.A = append([]*J{dead}, rules.A...)
 		return d, true
 	}},
